@@ -19,7 +19,7 @@ from typing import Any
 from ..loader import AnalysisError, EnumMember, Repo
 from ..report import Check
 from ..sereval import BV, INF, TOP, AbstractRaise, Blob, Bytes, EnumV, Lin, ListV, Obj, Run, SerEval, Src, Unsupported, _FieldRef
-from .apci_common import M, class_fields, field_variants, is_stub, service_classes, symbolic_object, encoders_return_fresh_buffers
+from .apci_common import M, class_fields, field_variants, is_stub, service_classes, symbolic_object, encoders_return_fresh_buffers, payload_bits_never_form_another_service_code
 
 
 def compare_field(ev: SerEval, run: Run, fq: str, orig: Any, got: Any, problems: list[str]) -> None:
@@ -75,6 +75,7 @@ def run(chk: Check, repo: Repo) -> None:
     ev = SerEval(repo)
     classes = service_classes(repo)
     stale = encoders_return_fresh_buffers(chk, repo, classes)
+    payload_bits_never_form_another_service_code(chk, repo)
     chk.floor("APCI service classes", len(classes), 80)
     n_paths = n_cls = n_refuse = 0
     for c in classes:
